@@ -777,6 +777,9 @@ pub fn regime_tags(spec: &DistSpec) -> Vec<String> {
             }
         }
         Family::Poisson if p.len() == 1 && p[0] >= 1.2e19 => t.push("poisson:lambda>=1.2e19".into()),
+        Family::Zipf if p.len() == 2 && spec.scalar == Scalar::F32 && (p[1] - 1.0).abs() <= 0.02 && p[1] != 1.0 && p[0] >= 1e4 => {
+            t.push("zipf32:|s-1|<=0.02&n>=1e4".into())
+        }
         Family::StudentT if p.len() == 1 && p[0] == 1.0 => t.push("dof=1".into()),
         Family::FisherF if p.len() == 2 && (p[0] == 1.0 || p[1] == 1.0) => t.push("dof=1".into()),
         Family::StudentT if p.len() == 1 && p[0] <= 0.11 => t.push("dof<=0.11".into()),
